@@ -44,10 +44,10 @@ Proof.
   - right. eapply IH. exact H.
 Qed.
 
-Lemma all_safe_checked : forall P, all_safe P = true ->
+Lemma all_safe_checked : forall P, prog_safe P = true ->
   forall f k c, lookup P f = Some (k, c) -> exists a', check P c (start k) = Some a'.
 Proof.
-  intros P H f k c Hl. unfold all_safe in H. rewrite forallb_forall in H.
+  intros P H f k c Hl. unfold prog_safe in H. rewrite forallb_forall in H.
   specialize (H f (lookup_in _ _ _ Hl)). unfold seed_safe in H. rewrite Hl in H.
   destruct (check P c (start k)) as [a'|]; [exists a'; reflexivity|discriminate].
 Qed.
@@ -190,13 +190,13 @@ Proof.
   induction fuel as [|k IH]; intros c fr st m a' Hc Hag; pose proof (check_pure_out _ _ _ Hc) as Ha'.
   - split; [exact Ha'|]. cbn. destruct Hag as [Hh Hs]. unfold stop, astop. rewrite <- Hs.
     destruct (status st) eqn:E; cbn; repeat split; auto; congruence.
-  - destruct Hag as [Hh Hs].
+  - pose proof Hag as [Hh Hs].
     destruct (status st) eqn:Est.
     2,3: rewrite exec_stopped by (rewrite Est; discriminate); rewrite aexec_stopped by (rewrite <- Hs; discriminate).
-    2,3: cbn; repeat split; auto.
+    2,3: cbn; repeat split; auto; try congruence.
     assert (Ham : astatus m = Running) by (rewrite <- Hs; reflexivity).
     destruct c; cbn [EffectLang.exec EffectLang.aexec]; rewrite Est, Ham; cbn in Hc.
-    + inversion Hc; subst. cbn. repeat split; auto.
+    + inversion Hc; subst. cbn. repeat split; auto; try congruence.
     + destruct e; discriminate.
     + discriminate.
     + discriminate.
@@ -204,29 +204,29 @@ Proof.
     + destruct e; try discriminate.
       destruct (lookup P f) as [[[|] body]|] eqn:El; try discriminate. inversion Hc; subst.
       destruct (Hall _ _ _ El) as [a1 Ha1]. cbn [start] in Ha1.
-      destruct (IH body (new_frame (eval gstate decide ENone fr st)) st m a1 Ha1 (conj Hh Hs)) as (_ & H1 & H2 & H3 & H4).
-      cbn [snd]. repeat split; auto; apply H1.
+      destruct (IH body (new_frame (eval gstate decide ENone fr st)) st m a1 Ha1 Hag) as (_ & H1 & H2 & H3 & H4).
+      cbn [snd]. repeat split; auto; try apply H1; try congruence.
     + destruct (check P c1 (true, [])) as [a1|] eqn:E1; [|discriminate].
-      destruct (IH c1 fr st m a1 E1 (conj Hh Hs)) as (-> & H1 & H2 & H3 & H4).
+      destruct (IH c1 fr st m a1 E1 Hag) as (-> & H1 & H2 & H3 & H4).
       destruct (IH c2 (fst (exec k c1 fr st)) (snd (exec k c1 fr st)) (aexec k c1 m) a' Hc H1) as (-> & G1 & G2 & G3 & G4).
       cbn zeta. repeat split; try apply G1; congruence.
     + destruct (check P c1 (true, [])) as [a1|] eqn:E1; [|discriminate].
       destruct (check P c2 (true, [])) as [a2|] eqn:E2; [|discriminate].
       cbn zeta. rewrite <- Hh.
-      pose proof (agree_record (EDec (decide (hist st))) st m (conj Hh Hs)) as Hr. rewrite <- Hh in Hr.
+      pose proof (agree_record (EDec (decide (hist st))) st m Hag) as Hr.
       destruct (Nat.eqb (decide (hist st)) 0).
       * destruct (IH c1 fr _ _ a1 E1 Hr) as (-> & H1 & H2 & H3 & H4).
-        destruct (IH c2 fr st m a2 E2 (conj Hh Hs)) as (-> & _).
-        inversion Hc; subst. cbn in *. repeat split; auto; apply H1.
+        destruct (IH c2 fr st m a2 E2 Hag) as (-> & _).
+        inversion Hc; subst. cbn in *. repeat split; auto; try apply H1; try congruence.
       * destruct (IH c2 fr _ _ a2 E2 Hr) as (-> & H1 & H2 & H3 & H4).
-        destruct (IH c1 fr st m a1 E1 (conj Hh Hs)) as (-> & _).
-        inversion Hc; subst. cbn in *. repeat split; auto; apply H1.
+        destruct (IH c1 fr st m a1 E1 Hag) as (-> & _).
+        inversion Hc; subst. cbn in *. repeat split; auto; try apply H1; try congruence.
     + destruct (check P c (true, [])) as [a1|] eqn:E1; [|discriminate].
       destruct (Bool.eqb (fst a1) _) eqn:Eb; [|discriminate]. inversion Hc; subst a'.
       cbn zeta. rewrite <- Hh.
-      pose proof (agree_record (EDec (decide (hist st))) st m (conj Hh Hs)) as Hr. rewrite <- Hh in Hr.
+      pose proof (agree_record (EDec (decide (hist st))) st m Hag) as Hr.
       destruct (Nat.eqb (decide (hist st)) 0).
-      * cbn. repeat split; auto; apply Hr.
+      * cbn. repeat split; auto; try apply Hr; try congruence.
       * destruct (IH c fr _ _ a1 E1 Hr) as (-> & H1 & H2 & H3 & H4).
         assert (Hl : check P (Loop c) (true, []) = Some (true, [])) by (cbn; rewrite E1; reflexivity).
         destruct (IH (Loop c) (fst (exec k c fr (record gstate (EDec (decide (hist st))) st)))
@@ -235,4 +235,387 @@ Proof.
         repeat split; try apply G1; cbn in *; congruence.
 Qed.
 
+
+Lemma get_rng_target : forall v r (st : state), target v = Some r -> get_rng v st = (VObj r, st).
+Proof. intros [| |s|o|] r st H; cbn in H; inversion H; reflexivity. Qed.
+
+Lemma Inv_heap_irrel : forall n0 a fr (st st' : state) g,
+  heap st' = heap st -> nxt st' = nxt st -> Inv n0 a fr st g -> Inv n0 a fr st' g.
+Proof. unfold Inv, Core. intros n0 a fr st st' g H H0 H1. rewrite H, H0. exact H1. Qed.
+
+Lemma inter_nil_l : forall B1 B2, B1 = [] -> inter B1 B2 = [].
+Proof. intros B1 B2 ->. reflexivity. Qed.
+
+Lemma inter_nil_r : forall B1 B2, B2 = [] -> inter B1 B2 = [].
+Proof. intros B1 B2 ->. apply sub_nil. intros x H. apply inter_mem in H. apply H. Qed.
+
+(* (2) refinement of the reference machine + footprint *)
+Lemma exec_refines : forall fuel c fr st m a a' n0,
+  check P c a = Some a' ->
+  agree st m ->
+  (status st = Running -> Inv n0 a fr st (ag m)) ->
+  agree (snd (exec fuel c fr st)) (aexec fuel c m) /\
+  (status (snd (exec fuel c fr st)) = Running ->
+     Inv n0 a' (fst (exec fuel c fr st)) (snd (exec fuel c fr st)) (ag (aexec fuel c m))) /\
+  seedv (fst (exec fuel c fr st)) = seedv fr /\
+  (forall o, o < n0 -> target (seedv fr) <> Some o -> heap (snd (exec fuel c fr st)) o = heap st o).
+Proof.
+  induction fuel as [|k IH]; intros c fr st m a a' n0 Hc Hag Hinv; pose proof Hag as [Hh Hs].
+  - cbn. unfold stop, astop. rewrite <- Hs.
+    destruct (status st) eqn:E; cbn; repeat split; auto; try congruence; intros HR; cbn in HR; congruence.
+  - destruct (status st) eqn:Est.
+    2,3: rewrite exec_stopped by (rewrite Est; discriminate); rewrite aexec_stopped by (rewrite <- Hs; discriminate).
+    2,3: cbn; split; [exact Hag|]; split; [intros HR; congruence|]; split; reflexivity.
+    assert (Ham : astatus m = Running) by (rewrite <- Hs; reflexivity).
+    destruct (Hinv eq_refl) as (Hn & Hwf & Hcore).
+    destruct c; cbn [EffectLang.exec EffectLang.aexec]; rewrite Est, Ham; cbn [check] in Hc.
+    + (* Skip *)
+      inversion Hc; subst a'. cbn [fst snd]. split; [exact Hag|]. split; [intros _; exact (conj Hn (conj Hwf Hcore))|].
+      split; reflexivity.
+    + (* GetRng *)
+      destruct e; try discriminate.
+      * (* x = get_rng(seed) *)
+        destruct a as [u B]; cbn [fst snd] in *. destruct u; [discriminate|]. inversion Hc; subst a'.
+        rewrite (Hwf eq_refl) in *. cbn [eval]. unfold Core in Hcore. cbn [fst snd] in Hcore.
+        destruct (target (seedv fr)) as [r|] eqn:Ht.
+        -- rewrite (get_rng_target _ _ st Ht). cbn [fst snd]. destruct Hcore as [Hg Hb].
+           split; [exact Hag|]. split.
+           { intros _. split; [exact Hn|]. split; [intros HF; discriminate HF|].
+             unfold Core. cbn [bind seedv fst snd]. rewrite Ht. split; [exact Hg|apply binds_bind; exact Hb]. }
+           split; reflexivity.
+        -- destruct (seedv fr) eqn:Hv; try contradiction. cbn [EffectLang.get_rng fst snd].
+           split; [split; cbn; congruence|]. split.
+           { intros _. split; [cbn; lia|]. split; [intros HF; discriminate HF|].
+             unfold Core. cbn [bind seedv fst snd]. rewrite Hv. cbn [target]. right. exists (nxt st).
+             split; [exact Hn|]. split; [apply binds_bind; apply binds_nil|].
+             cbn [heap]. unfold upd. rewrite Nat.eqb_refl. symmetry. exact Hcore. }
+           split; [cbn; exact Hv|]. intros o Ho _. cbn [heap]. unfold upd.
+           destruct (Nat.eqb_spec o (nxt st)); [lia|reflexivity].
+      * (* x = get_rng(y) / x = y for a name y holding the rng *)
+        destruct (mem x0 (snd a)) eqn:Hm; [|discriminate]. inversion Hc; subst a'. cbn [eval fst snd].
+        assert (Hu : fst a = true).
+        { destruct (fst a) eqn:Hu; [reflexivity|]. rewrite (Hwf eq_refl) in Hm. discriminate Hm. }
+        unfold Core in Hcore. destruct (target (seedv fr)) as [r|] eqn:Ht.
+        -- destruct Hcore as [Hg Hb]. rewrite (Hb _ Hm). cbn [EffectLang.get_rng fst snd].
+           split; [exact Hag|]. split.
+           { intros _. split; [exact Hn|]. split; [cbn [fst snd]; intros HF; congruence|].
+             unfold Core. cbn [bind seedv fst snd]. rewrite Ht. split; [exact Hg|apply binds_bind; exact Hb]. }
+           split; reflexivity.
+        -- destruct (seedv fr) eqn:Hv; try contradiction. rewrite Hu in Hcore.
+           destruct Hcore as [He|[r (Hr & Hb & Hg)]]; [rewrite He in Hm; discriminate Hm|].
+           rewrite (Hb _ Hm). cbn [EffectLang.get_rng fst snd].
+           split; [exact Hag|]. split.
+           { intros _. split; [exact Hn|]. split; [cbn [fst snd]; intros HF; congruence|].
+             unfold Core. cbn [bind seedv fst snd]. rewrite Hv, Hu. cbn [target]. right. exists r.
+             split; [exact Hr|]. split; [apply binds_bind; exact Hb|exact Hg]. }
+           split; [cbn; exact Hv|]. reflexivity.
+    + (* DrawLocal *)
+      destruct (mem x (snd a)) eqn:Hm; [|discriminate]. inversion Hc; subst a'. cbn [fst snd].
+      assert (Hu : fst a = true).
+      { destruct (fst a) eqn:Hu; [reflexivity|]. rewrite (Hwf eq_refl) in Hm. discriminate Hm. }
+      unfold Core in Hcore. destruct (target (seedv fr)) as [r|] eqn:Ht.
+      * destruct Hcore as [Hg Hb]. rewrite (Hb _ Hm). cbn [EffectLang.draw]. unfold EffectLang.adraw.
+        rewrite Hg, Hh. split; [split; cbn; [reflexivity|congruence]|]. split.
+        { intros _. split; [exact Hn|]. split; [exact Hwf|]. unfold Core. rewrite Ht. cbn [heap ag].
+          split; [unfold upd; rewrite Nat.eqb_refl; reflexivity|exact Hb]. }
+        split; [reflexivity|]. intros o Ho Hne. cbn [heap]. unfold upd.
+        destruct (Nat.eqb_spec o r); [subst o; contradiction Hne; reflexivity|reflexivity].
+      * destruct (seedv fr) eqn:Hv; try contradiction. rewrite Hu in Hcore.
+        destruct Hcore as [He|[r (Hr & Hb & Hg)]]; [rewrite He in Hm; discriminate Hm|].
+        rewrite (Hb _ Hm). cbn [EffectLang.draw]. unfold EffectLang.adraw.
+        rewrite Hg, Hh. split; [split; cbn; [reflexivity|congruence]|]. split.
+        { intros _. split; [exact Hn|]. split; [exact Hwf|]. unfold Core. rewrite Hv, Hu. cbn [target heap ag].
+          right. exists r. split; [exact Hr|]. split; [exact Hb|]. unfold upd. rewrite Nat.eqb_refl. reflexivity. }
+        split; [reflexivity|]. intros o Ho _. cbn [heap]. unfold upd.
+        destruct (Nat.eqb_spec o r); [lia|reflexivity].
+    + discriminate.
+    + discriminate.
+    + (* Call *)
+      destruct e; try discriminate.
+      * (* f(..., seed=seed): the raw seed is handed on *)
+        destruct a as [u B]; cbn [fst snd] in *. destruct u; [discriminate|].
+        destruct (lookup P f) as [[kd body]|] eqn:El; [|discriminate]. inversion Hc; subst a'.
+        rewrite (Hwf eq_refl) in *. destruct (Hall _ _ _ El) as [a1 Ha1]. cbn [eval].
+        assert (HI' : Inv n0 (start kd) (new_frame (seedv fr)) st (ag m)).
+        { split; [exact Hn|]. split; [destruct kd; reflexivity|].
+          unfold Core in *. cbn [new_frame seedv fst snd] in *. destruct (target (seedv fr)) as [r|].
+          - split; [apply Hcore|]. destruct kd; apply binds_nil.
+          - destruct (seedv fr); try contradiction. destruct kd; cbn [start fst snd]; [exact Hcore|left; reflexivity]. }
+        destruct (IH body (new_frame (seedv fr)) st m (start kd) a1 n0 Ha1 Hag (fun _ => HI')) as (G1 & G2 & G3 & G4).
+        cbn [fst snd]. split; [exact G1|]. split.
+        { intros HR. destruct (G2 HR) as (Gn & Gwf & Gc). split; [exact Gn|]. split; [intros HF; discriminate HF|].
+          unfold Core in *. rewrite G3 in Gc. cbn [new_frame seedv fst snd] in *.
+          destruct (target (seedv fr)) as [r|]; [split; [apply Gc|apply binds_nil]|].
+          destruct (seedv fr); try contradiction. left; reflexivity. }
+        split; [reflexivity|]. exact G4.
+      * (* f(..., seed=rng) *)
+        destruct (mem x (snd a)) eqn:Hm; [|discriminate].
+        destruct (lookup P f) as [[kd body]|] eqn:El; [|discriminate]. inversion Hc; subst a'.
+        destruct (Hall _ _ _ El) as [a1 Ha1]. cbn [eval].
+        assert (Hu : fst a = true).
+        { destruct (fst a) eqn:Hu; [reflexivity|]. rewrite (Hwf eq_refl) in Hm. discriminate Hm. }
+        assert (Hr : exists r, env fr x = VObj r /\ heap st r = ag m /\
+                     (forall o, o < n0 -> target (seedv fr) <> Some o -> o <> r) /\
+                     (forall (st' : state) g', n0 <= nxt st' -> heap st' r = g' -> Inv n0 a fr st' g')).
+        { unfold Core in Hcore. destruct (target (seedv fr)) as [r|] eqn:Ht.
+          - destruct Hcore as [Hg Hb]. exists r. split; [exact (Hb _ Hm)|]. split; [exact Hg|]. split.
+            + intros o _ Hne Heq. subst o. contradiction Hne; reflexivity.
+            + intros st' g' Hn' Hg'. split; [exact Hn'|]. split; [exact Hwf|]. unfold Core. rewrite Ht. split; assumption.
+          - destruct (seedv fr) eqn:Hv; try contradiction. rewrite Hu in Hcore.
+            destruct Hcore as [He|[r (Hr & Hb & Hg)]]; [rewrite He in Hm; discriminate Hm|].
+            exists r. split; [exact (Hb _ Hm)|]. split; [exact Hg|]. split.
+            + intros o Ho _. lia.
+            + intros st' g' Hn' Hg'. split; [exact Hn'|]. split; [exact Hwf|]. unfold Core. rewrite Hv, Hu. cbn [target].
+              right. exists r. split; [exact Hr|]. split; assumption. }
+        destruct Hr as (r & Hx & Hg & Hfoot & Hback). rewrite Hx.
+        assert (HI' : Inv n0 (start kd) (new_frame (VObj r)) st (ag m)).
+        { split; [exact Hn|]. split; [destruct kd; reflexivity|]. unfold Core. cbn [new_frame seedv target].
+          split; [exact Hg|]. destruct kd; apply binds_nil. }
+        destruct (IH body (new_frame (VObj r)) st m (start kd) a1 n0 Ha1 Hag (fun _ => HI')) as (G1 & G2 & G3 & G4).
+        cbn [fst snd]. split; [exact G1|]. split.
+        { intros HR. destruct (G2 HR) as (Gn & Gwf & Gc). unfold Core in Gc. rewrite G3 in Gc.
+          cbn [new_frame seedv target] in Gc. apply Hback; [exact Gn|apply Gc]. }
+        split; [reflexivity|]. intros o Ho Hne. apply G4; [exact Ho|]. cbn [new_frame seedv target].
+        intros HF. inversion HF. subst o. exact (Hfoot r Ho Hne eq_refl).
+      * (* f(...) without a seed: only generator-free functions *)
+        destruct (lookup P f) as [[[|] body]|] eqn:El; try discriminate. inversion Hc; subst a'.
+        destruct (Hall _ _ _ El) as [a1 Ha1]. cbn [start] in Ha1.
+        destruct (pure_refines k body (new_frame (eval gstate decide ENone fr st)) st m a1 Ha1 Hag) as (_ & H1 & H2 & H3 & H4).
+        cbn [fst snd]. split; [exact H1|]. split.
+        { intros _. rewrite H4. eapply Inv_heap_irrel; [exact H2|exact H3|]. exact (conj Hn (conj Hwf Hcore)). }
+        split; [reflexivity|]. intros o _ _. rewrite H2. reflexivity.
+    + (* Seq *)
+      destruct (check P c1 a) as [a1|] eqn:E1; [|discriminate]. cbn zeta.
+      destruct (IH c1 fr st m a a1 n0 E1 Hag (fun _ => conj Hn (conj Hwf Hcore))) as (G1 & G2 & G3 & G4).
+      destruct (IH c2 (fst (exec k c1 fr st)) (snd (exec k c1 fr st)) (aexec k c1 m) a1 a' n0 Hc G1 G2) as (K1 & K2 & K3 & K4).
+      split; [exact K1|]. split; [exact K2|]. split; [congruence|].
+      intros o Ho Hne. rewrite K4; [apply G4; assumption|exact Ho|rewrite G3; exact Hne].
+    + (* Choice *)
+      destruct (check P c1 a) as [a1|] eqn:E1; [|discriminate].
+      destruct (check P c2 a) as [a2|] eqn:E2; [|discriminate]. inversion Hc; subst a'.
+      cbn zeta. rewrite <- Hh.
+      pose proof (agree_record (EDec (decide (hist st))) st m Hag) as Hr.
+      assert (HI0 : status (record gstate (EDec (decide (hist st))) st) = Running ->
+                    Inv n0 a fr (record gstate (EDec (decide (hist st))) st) (ag (arecord gstate (EDec (decide (hist st))) m))).
+      { intros _. eapply Inv_heap_irrel; [reflexivity|reflexivity|]. exact (conj Hn (conj Hwf Hcore)). }
+      destruct (Nat.eqb (decide (hist st)) 0).
+      * destruct (IH c1 fr _ _ a a1 n0 E1 Hr HI0) as (G1 & G2 & G3 & G4).
+        split; [exact G1|]. split; [|split; [exact G3|exact G4]].
+        intros HR. pose proof (G2 HR) as GI. eapply Inv_weaken; [exact GI| | |]; cbn [fst snd].
+        -- intros ->. reflexivity.
+        -- intros z Hz. apply inter_mem in Hz. apply Hz.
+        -- intros HF. apply orb_false_iff in HF. destruct HF as [HF _]. apply inter_nil_l. apply GI. exact HF.
+      * destruct (IH c2 fr _ _ a a2 n0 E2 Hr HI0) as (G1 & G2 & G3 & G4).
+        split; [exact G1|]. split; [|split; [exact G3|exact G4]].
+        intros HR. pose proof (G2 HR) as GI. eapply Inv_weaken; [exact GI| | |]; cbn [fst snd].
+        -- intros ->. apply orb_true_r.
+        -- intros z Hz. apply inter_mem in Hz. apply Hz.
+        -- intros HF. apply orb_false_iff in HF. destruct HF as [_ HF]. apply inter_nil_r. apply GI. exact HF.
+    + (* Loop *)
+      destruct (check P c a) as [a1|] eqn:E1; [|discriminate].
+      destruct (Bool.eqb (fst a1) (fst a)) eqn:Eb; [|discriminate]. inversion Hc; subst a'.
+      apply eqb_prop in Eb.
+      cbn zeta. rewrite <- Hh.
+      pose proof (agree_record (EDec (decide (hist st))) st m Hag) as Hr.
+      assert (HI0 : Inv n0 a fr (record gstate (EDec (decide (hist st))) st) (ag (arecord gstate (EDec (decide (hist st))) m))).
+      { eapply Inv_heap_irrel; [reflexivity|reflexivity|]. exact (conj Hn (conj Hwf Hcore)). }
+      destruct (Nat.eqb (decide (hist st)) 0).
+      * cbn [fst snd]. split; [exact Hr|]. split; [intros _; exact HI0|]. split; reflexivity.
+      * destruct (IH c fr _ _ a a1 n0 E1 Hr (fun _ => HI0)) as (G1 & G2 & G3 & G4).
+        assert (Hl : check P (Loop c) a = Some a).
+        { cbn [check]. rewrite E1, Eb, Bool.eqb_reflx. reflexivity. }
+        assert (G2' : status (snd (exec k c fr (record gstate (EDec (decide (hist st))) st))) = Running ->
+                      Inv n0 a (fst (exec k c fr (record gstate (EDec (decide (hist st))) st)))
+                          (snd (exec k c fr (record gstate (EDec (decide (hist st))) st)))
+                          (ag (aexec k c (arecord gstate (EDec (decide (hist st))) m)))).
+        { intros HR. eapply Inv_weaken; [exact (G2 HR)| | |].
+          - intros H1. rewrite <- Eb. exact H1.
+          - intros z Hz. eapply check_grows; [exact E1|exact Hz].
+          - exact Hwf. }
+        destruct (IH (Loop c) _ _ _ a a n0 Hl G1 G2') as (K1 & K2 & K3 & K4).
+        split; [exact K1|]. split; [exact K2|]. split; [congruence|].
+        intros o Ho Hne. rewrite K4; [apply G4; assumption|exact Ho|rewrite G3; exact Hne].
+Qed.
+
 End Proofs.
+
+(* ------------------------------------------------------------------ (3) the clauses of C05 *)
+Section Sound.
+Variable gstate : Type.
+Variable next : gstate -> nat -> nat * gstate.
+Variable rs_new : nat -> option gstate.
+Variable py_fallback : nat -> nat.
+Variable rs_new32 : nat -> gstate.
+Variable decide : list ev -> nat.
+Variable P : program.
+Hypothesis Hsafe : prog_safe P = true.
+
+Notation run := (run_fn gstate next rs_new py_fallback rs_new32 decide P).
+Notation aexec := (aexec gstate next decide P).
+Notation stream_of := (stream_of gstate rs_new py_fallback rs_new32).
+Notation state := (state gstate).
+
+Lemma Inv_init : forall k v (st : state), v <> VBad ->
+  Inv gstate rs_new py_fallback rs_new32 (nxt st) (start k) (new_frame v) st (stream_of v st).
+Proof.
+  intros k v st Hv. split; [apply le_n|]. split; [destruct k; reflexivity|].
+  unfold Core. cbn [new_frame seedv].
+  destruct v; cbn [target stream_of]; try (split; [reflexivity|destruct k; apply binds_nil]).
+  - destruct k; cbn [start fst snd]; [reflexivity|left; reflexivity].
+  - contradiction Hv; reflexivity.
+Qed.
+
+(* a checked function behaves like the reference machine on the stream its seed denotes, and
+   touches no generator object that existed before the call except the one its seed denotes *)
+Lemma run_refines : forall fuel f k c v (st : state),
+  lookup P f = Some (k, c) -> v <> VBad ->
+  observable (run fuel f v st) =
+    (ahist (aexec fuel c (mkA (stream_of v st) (hist st) (status st))),
+     astatus (aexec fuel c (mkA (stream_of v st) (hist st) (status st)))) /\
+  (forall o, o < nxt st -> target v <> Some o -> heap (run fuel f v st) o = heap st o).
+Proof.
+  intros fuel f k c v st Hl Hv. unfold run_fn. rewrite Hl.
+  destruct (all_safe_checked P Hsafe f k c Hl) as [a' Ha'].
+  pose proof (exec_refines gstate next rs_new py_fallback rs_new32 decide P (all_safe_checked P Hsafe)
+                fuel c (new_frame v) st (mkA (stream_of v st) (hist st) (status st)) (start k) a' (nxt st) Ha'
+                (conj eq_refl eq_refl) (fun _ => Inv_init k v st Hv)) as (G1 & _ & _ & G4).
+  split; [|exact G4]. destruct G1 as [G1 G1']. unfold observable. rewrite G1, G1'. reflexivity.
+Qed.
+
+(* two calls whose seeds denote the same stream are indistinguishable, whatever else differs
+   (the global generators, the other objects, the allocation counter) *)
+Lemma run_obs_eq : forall fuel f v1 v2 (st1 st2 : state),
+  v1 <> VBad -> v2 <> VBad ->
+  hist st1 = hist st2 -> status st1 = status st2 ->
+  stream_of v1 st1 = stream_of v2 st2 ->
+  observable (run fuel f v1 st1) = observable (run fuel f v2 st2).
+Proof.
+  intros fuel f v1 v2 st1 st2 H1 H2 Hh Hs Hg.
+  destruct (lookup P f) as [[k c]|] eqn:Hl.
+  - destruct (run_refines fuel f k c v1 st1 Hl H1) as [E1 _].
+    destruct (run_refines fuel f k c v2 st2 Hl H2) as [E2 _].
+    rewrite E1, E2, Hh, Hs, Hg. reflexivity.
+  - unfold run_fn, observable. rewrite Hl. cbn. rewrite Hh. reflexivity.
+Qed.
+
+Lemma run_footprint : forall fuel f v (st : state) o,
+  v <> VBad -> o < nxt st -> target v <> Some o -> heap (run fuel f v st) o = heap st o.
+Proof.
+  intros fuel f v st o Hv Ho Hne. destruct (lookup P f) as [[k c]|] eqn:Hl.
+  - destruct (run_refines fuel f k c v st Hl Hv) as [_ E]. apply E; assumption.
+  - unfold run_fn. rewrite Hl. reflexivity.
+Qed.
+
+End Sound.
+
+(* seeds a caller can pass *)
+Definition seed_given (v : value) : Prop := (exists s, v = VInt s) \/ (exists o, v = VObj o /\ 2 <= o).
+
+Theorem seed_safe_sound :
+  forall (gstate : Type) (next : gstate -> nat -> nat * gstate)
+         (rs_new : nat -> option gstate) (py_fallback : nat -> nat) (rs_new32 : nat -> gstate)
+         (A : Type) (D : A -> list ev -> nat)
+         (P : program), prog_safe P = true ->
+  forall (f : fname) (args : A) (fuel : nat),
+  let run := run_fn gstate next rs_new py_fallback rs_new32 (D args) P fuel f in
+  let fresh := mk gstate rs_new py_fallback rs_new32 in
+  (* (1) with a seed, numpy's global generator (object 0) and Python's (object 1) are left as found *)
+  (forall v st, seed_given v -> 2 <= nxt st ->
+     heap (run v st) 0 = heap st 0 /\ heap (run v st) 1 = heap st 1) /\
+  (* (2) same arguments + same seed => same draws, decisions and outcome, whatever the global
+         generators and the rest of the heap contain *)
+  (forall s st1 st2, hist st1 = hist st2 -> status st1 = status st2 ->
+     observable (run (VInt s) st1) = observable (run (VInt s) st2)) /\
+  (forall o st1 st2, hist st1 = hist st2 -> status st1 = status st2 -> heap st1 o = heap st2 o ->
+     observable (run (VObj o) st1) = observable (run (VObj o) st2)) /\
+  (* (3) an integer seed and a RandomState constructed from it are indistinguishable *)
+  (forall s o st1 st2, hist st1 = hist st2 -> status st1 = status st2 -> heap st2 o = fresh s ->
+     observable (run (VInt s) st1) = observable (run (VObj o) st2)) /\
+  (* (4) without a seed the outcome is a function of the arguments and numpy's global generator
+         only, and Python's generator is not touched *)
+  (forall st1 st2, hist st1 = hist st2 -> status st1 = status st2 -> heap st1 0 = heap st2 0 ->
+     observable (run VNone st1) = observable (run VNone st2)) /\
+  (forall st, 2 <= nxt st -> heap (run VNone st) 1 = heap st 1).
+Proof.
+  intros gstate next rs_new py_fallback rs_new32 A D P Hsafe f args fuel run fresh. unfold run, fresh.
+  split; [|split; [|split; [|split; [|split]]]].
+  - intros v st Hv Hn. split; apply (run_footprint gstate next rs_new py_fallback rs_new32 (D args) P Hsafe);
+      try lia; destruct Hv as [[s ->]|[o [-> Ho]]]; cbn; try discriminate; intros HF; inversion HF; lia.
+  - intros s st1 st2 Hh Hs. apply (run_obs_eq gstate next rs_new py_fallback rs_new32 (D args) P Hsafe);
+      try discriminate; auto.
+  - intros o st1 st2 Hh Hs Hg. apply (run_obs_eq gstate next rs_new py_fallback rs_new32 (D args) P Hsafe);
+      try discriminate; auto.
+  - intros s o st1 st2 Hh Hs Hg. apply (run_obs_eq gstate next rs_new py_fallback rs_new32 (D args) P Hsafe);
+      try discriminate; auto.
+  - intros st1 st2 Hh Hs Hg. apply (run_obs_eq gstate next rs_new py_fallback rs_new32 (D args) P Hsafe);
+      try discriminate; auto.
+  - intros st Hn. apply (run_footprint gstate next rs_new py_fallback rs_new32 (D args) P Hsafe);
+      try lia; cbn; discriminate.
+Qed.
+
+(* ------------------------------------------------------------------ non-vacuity and refutations
+   A concrete toy generator: the state is a counter, a draw returns it and increments it;
+   RandomState(s) starts at 100*s.  Object o of the initial heap holds the counter 10*o
+   (object 0 = numpy's global, 1 = Python's); object 2 is a caller's RandomState(7). *)
+Module Toy.
+Definition tnext (g p : nat) : nat * nat := (g, S g).
+Definition trs (s : nat) : option nat := Some (100 * s).
+Definition st0 : state nat := mkState (fun o => if Nat.eqb o 2 then 700 else 10 * o) 3 [] Running.
+Definition st0' : state nat := mkState (fun o => if Nat.eqb o 2 then 700 else 10 * o + 5) 9 [] Running.
+(* an oracle that depends on the history only: alternate while the history is short, then stop *)
+Definition dec (h : list ev) : nat :=
+  if Nat.ltb (List.length h) 12 then (if Nat.even (List.length h) then 1 else 0) else 0.
+Definition trun := run_fn nat tnext trs (fun s => s) (fun s => s) dec.
+
+(* the shape of bct's rewiring routines: rng = get_rng(seed); loop { rng.randint; helper(n, rng) },
+   the helper recursing with the rng object like pick_four_unique_nodes_quickly *)
+Definition good : program :=
+  [ ("pick4", (Seeded, Seq (GetRng "rng" ESeed) (Seq (DrawLocal "rng") (Choice (Call "pick4" (EVar "rng")) Skip))));
+    ("clean", (Pure, Loop Skip));
+    ("randmio", (Seeded, Seq (Call "clean" ENone)
+                        (Seq (GetRng "rng" ESeed) (Loop (Seq (DrawLocal "rng") (Call "pick4" (EVar "rng"))))))) ].
+
+Example good_safe : prog_safe good = true.
+Proof. vm_compute. reflexivity. Qed.
+
+(* the theorem is not vacuous: the accepted program really draws (700, 701, 702 from RandomState(7), one of them in the recursive call),
+   identically for seed 7 in two different worlds and for the object RandomState(7) *)
+Example good_nonvacuous :
+  observable (trun good 50 "randmio" (VInt 7) st0)
+    = ([EDec 0; EDec 1; EDraw 702; EDec 1; EDec 0; EDraw 701; EDec 0; EDraw 700; EDec 0; EDec 1; EDec 0; EDec 1], Running)
+  /\ observable (trun good 50 "randmio" (VInt 7) st0') = observable (trun good 50 "randmio" (VInt 7) st0)
+  /\ observable (trun good 50 "randmio" (VObj 2) st0) = observable (trun good 50 "randmio" (VInt 7) st0)
+  /\ heap (trun good 50 "randmio" (VInt 7) st0) 0 = 0.
+Proof. vm_compute. repeat split. Qed.
+
+(* UNSAFE 1: one stray np.random call.  Rejected, and clause (1) really fails. *)
+Definition stray : program :=
+  [ ("f", (Seeded, Seq (GetRng "rng" ESeed) (Seq (DrawLocal "rng") DrawNpGlobal))) ].
+Example stray_rejected : seed_safe stray "f" = false.
+Proof. vm_compute. reflexivity. Qed.
+Example stray_refuted : heap (trun stray 50 "f" (VInt 7) st0) 0 <> heap st0 0.
+Proof. vm_compute. discriminate. Qed.
+
+(* UNSAFE 2: the raw seed handed to two nested calls (re-seeding).  Still reproducible and the
+   global generator is untouched, but an integer seed restarts the stream for the second call
+   whereas a RandomState object continues it: clause (3) really fails.  Rejected. *)
+Definition reseed : program :=
+  [ ("g", (Seeded, Seq (GetRng "rng" ESeed) (DrawLocal "rng")));
+    ("f", (Seeded, Seq (Call "g" ESeed) (Call "g" ESeed))) ].
+Example reseed_rejected : seed_safe reseed "f" = false /\ seed_safe reseed "g" = true.
+Proof. vm_compute. split; reflexivity. Qed.
+Example reseed_refuted :
+  observable (trun reseed 50 "f" (VInt 7) st0) <> observable (trun reseed 50 "f" (VObj 2) st0).
+Proof. vm_compute. discriminate. Qed.
+
+(* UNSAFE 3: a seeded routine calling a drawing routine without forwarding anything:
+   clause (2) fails (the result depends on the global generator).  Rejected. *)
+Definition forgot : program :=
+  [ ("g", (Seeded, Seq (GetRng "rng" ESeed) (DrawLocal "rng")));
+    ("f", (Seeded, Call "g" ENone)) ].
+Example forgot_rejected : seed_safe forgot "f" = false.
+Proof. vm_compute. reflexivity. Qed.
+Example forgot_refuted :
+  observable (trun forgot 50 "f" (VInt 7) st0) <> observable (trun forgot 50 "f" (VInt 7) st0').
+Proof. vm_compute. discriminate. Qed.
+End Toy.
